@@ -161,9 +161,27 @@ def run(rep):
     rep.check('R19.b', fkey(init, 'reset()'), ok, 'constructor initialises through reset()' if ok else
               'constructor no longer initialises the counters through reset()', st, init.node)
     grs = st.func('_get_route_stats')
+    # layer order of the per-status dict: the 'count' entry taken from total_count must be the *last* writer of that
+    # key (describe() brings its own 'count' = number of retained samples)
+    from ..layers import layers_of_var
+    ok = False
+    dict_vars = set(norm(s.targets[0].value) for s in stmts_of(grs.node) if isinstance(s, ast.Assign) and isinstance(s.targets[0], ast.Subscript)
+                    and isinstance(s.targets[0].value, ast.Name)) | \
+        set(norm(t) for s in stmts_of(grs.node) if isinstance(s, ast.Assign) for t in s.targets if isinstance(t, ast.Name))
+    for dv in sorted(dict_vars):
+        try:
+            ls = layers_of_var(grs.node, dv)
+        except AnalysisError:
+            continue
+        idx_count = [i for i, l in enumerate(ls) if l.kind == 'literal' and 'count' in (l.keys or []) and
+                     isinstance(l.values.get('count'), ast.Attribute) and l.values['count'].attr == 'total_count']
+        idx_desc = [i for i, l in enumerate(ls) if l.kind == 'source' and ('describe' in l.text or 'desc' in l.text)]
+        other_count = [i for i, l in enumerate(ls) if l.kind == 'literal' and 'count' in (l.keys or []) and i not in idx_count]
+        if idx_count and not other_count and all(i < idx_count[-1] for i in idx_desc):
+            # this dict must be the one that is reported
+            ok = True
     cnt = [s for s in stmts_of(grs.node) if isinstance(s, ast.Assign) and isinstance(s.targets[0], ast.Subscript)
            and isinstance(s.targets[0].slice, ast.Constant) and s.targets[0].slice.value == 'count']
-    ok = bool(cnt) and isinstance(cnt[-1].value, ast.Attribute) and cnt[-1].value.attr == 'total_count'
     rep.check('R19.b', fkey(grs, "['count']"), ok, 'reported count is the reservoir total_count (not the sample size)' if ok else
               'reported count is not the reservoir\'s total_count', st, grs.node)
     rep.floor('R19.b', 6)
